@@ -408,7 +408,8 @@ static void v_pool_run(const char *prefix, uint64_t total, v_item_fn fn, void *c
     if (timeout_s <= 0) timeout_s = 10;
     (void)v_counter("violations_raw");
     int nw = v_nworkers;
-    if ((uint64_t)nw > total) nw = total ? (int)total : 1;
+    /* small index spaces do not deserve 16 forks */
+    if ((uint64_t)nw > total / 4 + 1) nw = (int)(total / 4 + 1);
     pid_t pid[V_MAX_WORKERS];
     fflush(stdout);
     for (int w = 0; w < nw; ++w) {
